@@ -497,25 +497,12 @@ def descriptors(tier):
 
 
 def bounds(tier, seed):
-    return {'programs': list(PROGS) + NETS, 'options': 'full product (36 combinations)' if tier == 'thorough' else
-            'every option value with every descriptor: 12 combinations (dx x relative_dx x keep_zero) + pairwise rest',
+    return {'programs': list(PROGS) + NETS, 'options': 'full product dx x relative_dx x (random|ones|use_df) x keep_zero = 36 combinations',
             'rng_offsets': [seed] if tier == 'quick' else [seed, seed + 1]}
 
 
 def generate(tier, seed):
     grid = list(option_grid(tier))
-    if tier == 'quick':
-        # every (dx, relative_dx, keep_zero) combination; random/use_df alternate deterministically
-        pick = []
-        seen = set()
-        for i, o in enumerate(grid):
-            k = (o['dx'], o['relative_dx'], o['keep_zero'])
-            alt = (o['random'], o['use_df'])
-            want = [(True, False), (False, False), (True, True)][len(seen) % 3]
-            if k not in seen and alt == want:
-                seen.add(k)
-                pick.append(o)
-        grid = pick
     for d in descriptors(tier):
         for o in grid:
             yield {'desc': dict(d, opts=o), 'rng': seed}
